@@ -1394,6 +1394,8 @@ impl Tree {
         target: &NodeId,
     ) -> Result<usize, TreeError> {
         if source == target {
+            // A node is its own ancestor, provided it is a node of the tree
+            self.get(source)?;
             return Ok(*source);
         }
         let root_to_source = self.get_path_from_root(source)?;
@@ -1442,6 +1444,8 @@ impl Tree {
         let mut all_dists = true;
 
         if source == target {
+            // Only a node of the tree is at distance 0 from itself
+            self.get(source)?;
             return Ok((Some(0.0), 0));
         }
 
